@@ -399,8 +399,10 @@ def dual_cases(tier):
         for share in (True, False):
             out.append(dict(kind='composite_pou', elem=dict(cls='ElementComposite', of=[dict(cls=name), dict(cls=name)], share=share)))
     # wrappers keep the nodal/pou structure componentwise
-    for base in ('ElementTriP2', 'ElementQuad2', 'ElementTetP2', 'ElementHex1', 'ElementLineP2'):
-        out.append(dict(kind='nodal', elem=dict(cls='ElementDG', of=dict(cls=base))))
+    # (every nodal element: the wrapper's table of DOF locations must list the point of the SAME local function)
+    for dd in elem_variants():
+        if ge.R[dd['cls']]['nodal'] and ge.R[dd['cls']]['family'] != 'skeleton':
+            out.append(dict(kind='nodal', elem=dict(cls='ElementDG', of=dd)))
     return out
 
 
